@@ -4,6 +4,8 @@ import (
 	"bytes"
 	"encoding/json"
 	"fmt"
+	"os"
+	"path/filepath"
 	"strings"
 
 	"github.com/ddddddO/gtree"
@@ -31,6 +33,9 @@ type c07Replay struct {
 	Route string   `json:"route"` // md | root | md-dry-output | md-dry-mkdir | root-dry
 	Exts  []string `json:"exts"`
 	Extra string   `json:"extra_options,omitempty"`
+	// TargetForm: "" absolute | "rel" (relative to a working directory the process has just changed to) |
+	// "cwd" (no target option, the working directory is the target)
+	TargetForm string `json:"target_form,omitempty"`
 }
 
 // options that do not concern Mkdir: names are validated and nothing leaves the target whatever else is passed
@@ -46,10 +51,22 @@ func c07Case(c *rep.Ctx, r c07Replay) {
 	if len(r.Exts) > 0 {
 		opts = append(opts, gtree.WithFileExtensions(r.Exts))
 	}
+	switch r.TargetForm {
+	case "rel":
+		wd, _ := os.Getwd()
+		os.Chdir(filepath.Dir(j.Target))
+		defer os.Chdir(wd)
+		opts[0] = gtree.WithTargetDir(filepath.Base(j.Target))
+	case "cwd":
+		wd, _ := os.Getwd()
+		os.Chdir(j.Target)
+		defer os.Chdir(wd)
+		opts[0] = nil
+	}
 	opts = append(opts, extraOpts(r.Extra, "")...)
 	var err error
 	var buf bytes.Buffer
-	pan := sut.Guard(func() {
+	pan := guardMaybeMassive(strings.Contains(r.Extra, "massive"), func() {
 		switch r.Route {
 		case "md":
 			err = gtree.MkdirFromMarkdown(strings.NewReader(doc), opts...)
@@ -95,6 +112,12 @@ func c07Case(c *rep.Ctx, r c07Replay) {
 			break
 		}
 	}
+	if invalid == "" && err == nil && !strings.Contains(r.Route, "dry") {
+		// a valid tree: it is created inside the target (the first root is there), wherever the process has been before
+		if _, ok := after.Under("p/q/target")[r.Names[0]]; !ok {
+			c.Violation("C07|valid-tree-not-created-in-target|"+r.Route, fmt.Sprintf("%s target form %q: nil but %q is not in the target; changes: %s", desc, r.TargetForm, r.Names[0], fsx.Diff(before, after)), size, r)
+		}
+	}
 	if invalid != "" {
 		kind := "dotdot"
 		if strings.Contains(invalid, "/") {
@@ -103,7 +126,8 @@ func c07Case(c *rep.Ctx, r c07Replay) {
 		if err == nil {
 			c.Violation("C07|invalid-name-accepted|"+r.Route+"|"+pos+"|"+kind, fmt.Sprintf("%s: name %q is not a single valid path element but the call returned nil (target now: %s)", desc, invalid, fsx.Diff(before.Under("p/q/target"), after.Under("p/q/target"))), size, r)
 		}
-		if d := fsx.Diff(before.Under("p/q/target"), after.Under("p/q/target")); d != "" && err != nil {
+		// (with the massive option valid roots may already exist when the call fails: the statement exempts it)
+		if d := fsx.Diff(before.Under("p/q/target"), after.Under("p/q/target")); d != "" && err != nil && !strings.Contains(r.Extra, "massive") {
 			c.Violation("C07|created-despite-rejection|"+r.Route+"|"+pos+"|"+kind, fmt.Sprintf("%s: err=%v but the target changed: %s", desc, err, d), size, r)
 		}
 	}
@@ -166,12 +190,44 @@ func init() {
 							if n == 4 && ex != nil {
 								continue
 							}
-							c07Case(c, c07Replay{"c07", d, names, rt, ex, ""})
+							c07Case(c, c07Replay{Kind: "c07", Depth: d, Names: names, Route: rt, Exts: ex})
 						}
 						if n <= 2 && rt != "md-dry-output" {
 							for _, ex := range c07Extras {
-								c07Case(c, c07Replay{"c07", d, names, rt, []string{"x"}, ex})
+								c07Case(c, c07Replay{Kind: "c07", Depth: d, Names: names, Route: rt, Exts: []string{"x"}, Extra: ex})
 							}
+						}
+					}
+				})
+			})
+		}
+	}
+	// relative and default targets after the process changed its working directory (every case has its own
+	// directory): valid and hostile trees, nothing may appear anywhere but in the target
+	cwdFamily := props["C07"]
+	props["C07"] = func(c *rep.Ctx) {
+		cwdFamily(c)
+		names := []string{"x", "abs", "..", "a/b", "../x"}
+		for n := 1; n <= 2 && !c.Expired(); n++ {
+			enum.DepthSeqs(n, func(d0 []int) {
+				d := append([]int{}, d0...)
+				enum.Tuples(n, len(names), func(t []int) {
+					if !c.Take() || c.Expired() {
+						return
+					}
+					nm := enum.Pick(names, t)
+					if !distinctRoots(enum.Build(d, nm)) {
+						return
+					}
+					c.StateN(1)
+					c.Inc("working_directory_cases")
+					for _, form := range []string{"rel", "cwd"} {
+						for _, rt := range []string{"md", "root", "md-dry-mkdir"} {
+							if rt == "root" && n == 2 && d[1] == 1 {
+								continue
+							}
+							c07Case(c, c07Replay{Kind: "c07", Depth: d, Names: nm, Route: rt, Exts: []string{"x"}, TargetForm: form})
+							c07Case(c, c07Replay{Kind: "c07", Depth: d, Names: nm, Route: rt, TargetForm: form, Extra: "massive"})
 						}
 					}
 				})
@@ -202,7 +258,7 @@ func init() {
 					c.StateN(1)
 					c.Inc("wide_cases")
 					for _, rt := range []string{"md", "root", "md-dry-output"} {
-						c07Case(c, c07Replay{"c07", d, names, rt, nil, ""})
+						c07Case(c, c07Replay{Kind: "c07", Depth: d, Names: names, Route: rt})
 					}
 				}
 			}
